@@ -1029,3 +1029,109 @@ func TestC11Random(t *testing.T) {
 		run(t, Case{Property: "C11", Kind: "strict", Expr: e, Doc: ref.Canon(doc), Extra: map[string]interface{}{"seed": seed, "strict": strict}})
 	})
 }
+
+// TestC08Pairs: two (or three) slices evaluated by one interpreter in one
+// expression - side by side, nested, piped - so that state leaking from one slice
+// evaluation into the next (defaults of omitted parts) is visible.
+func TestC08Pairs(t *testing.T) {
+	rapid.Check(t, func(t *rapid.T) {
+		n := rapid.IntRange(0, 9).Draw(t, "len")
+		part := func(label string) string {
+			switch uni(t, 4, label+"Kind") {
+			case 0:
+				return ""
+			default:
+				return strconv.Itoa(rapid.IntRange(-n-2, n+2).Draw(t, label))
+			}
+		}
+		sl := func(label string) string {
+			a, b, c := part(label+"a"), part(label+"b"), part(label+"c")
+			if c == "0" {
+				c = "2"
+			}
+			if c == "" && uni(t, 2, label+"colon") == 0 {
+				return "[" + a + ":" + b + "]"
+			}
+			return "[" + a + ":" + b + ":" + c + "]"
+		}
+		s1, s2, s3 := sl("s1"), sl("s2"), sl("s3")
+		forms := []string{
+			"[@" + s1 + ", @" + s2 + "]", "{x: @" + s1 + ", y: @" + s2 + ", z: @" + s3 + "}", "@" + s1 + " | @" + s2, "@" + s1 + s2,
+			"nest" + s1 + "[*]" + s2, "[@" + s1 + ", nest" + s2 + "[0]" + s3 + "]", "@" + s1 + ".[@, `[1,2,3,4,5]`" + s2 + "]", "nest[*]" + s1 + " | [0]" + s2,
+			"[?@" + s1 + "] | @" + s2, "`[0,1,2,3,4,5,6]`" + s1 + " || @" + s2,
+		}
+		e := forms[uni(t, len(forms), "form")]
+		arr := mustJSON(markerArray(n)).([]interface{})
+		nest := make([]interface{}, n)
+		for i := range nest {
+			nest[i] = ref.DeepCopy(arr)
+		}
+		var doc interface{} = arr
+		if strings.Contains(e, "nest") {
+			doc = map[string]interface{}{"nest": nest}
+			e = strings.Replace(e, "@[", "nest[0][", -1)
+		}
+		run(t, Case{Property: "C08", Kind: "diff", Expr: e, Doc: ref.Canon(doc), Extra: map[string]interface{}{"cell": "pairs"}})
+	})
+}
+
+
+// TestC10LargeKeys: by-expression functions on arrays of 22..61 elements with exactly
+// one invalid (or erroring) key at every position, for several key orderings: the
+// call must fail wherever the bad element sits (merge-sort blocks, comparator sides).
+func TestC10LargeKeys(t *testing.T) { largeKeys(t, "C10", []string{`"x"`, "null", "ERR"}) }
+
+// TestC11LargeKeys: the same grid with an erroring key expression only: an error
+// raised inside a sort comparator / extremum scan must surface wherever it occurs.
+func TestC11LargeKeys(t *testing.T) { largeKeys(t, "C11", []string{"ERR", "ERR2"}) }
+
+func largeKeys(t *testing.T, prop string, bads []string) {
+	n := 0
+	for _, size := range []int{22, 41, 61} {
+		for pos := 0; pos < size; pos++ {
+			for pat := 0; pat < 4; pat++ {
+				for bi, bad := range bads {
+					if (pos+pat+bi)%2 == 1 && size > 22 {
+						continue
+					}
+					elems := make([]string, size)
+					for i := range elems {
+						var k int
+						switch pat {
+						case 0:
+							k = i
+						case 1:
+							k = size - i
+						case 2: // descending blocks of 20: every key of a block larger than every key of the next
+							k = (size/20+1-i/20)*100 + i%20
+						default:
+							k = (i * 7) % 5
+						}
+						if i == pos {
+							if bad == "ERR" || bad == "ERR2" {
+								elems[i] = fmt.Sprintf(`{"k":"s","e":true,"i":%d}`, i)
+							} else {
+								elems[i] = fmt.Sprintf(`{"k":%s,"i":%d}`, bad, i)
+							}
+						} else {
+							elems[i] = fmt.Sprintf(`{"k":%d,"i":%d}`, k, i)
+						}
+					}
+					key := "k"
+					if bad == "ERR" {
+						key = "(e && abs(k)) || k"
+					} else if bad == "ERR2" {
+						key = "(e && nosuch(@)) || k"
+					}
+					fn := []string{"sort_by", "max_by", "min_by"}[(pos+pat)%3]
+					run(t, Case{Property: prop, Kind: "diff", Expr: fn + "(@, &" + key + ")", Doc: "[" + strings.Join(elems, ",") + "]", Extra: map[string]interface{}{"cell": "largekeys"}})
+					n++
+				}
+			}
+		}
+	}
+	st := statsFor(prop)
+	st.mu.Lock()
+	st.Exhaustive[prop+".large-keys"] = fmt.Sprintf("sort_by/max_by/min_by on arrays of 22, 41 and 61 elements with one invalid/erroring key at every position x 4 key orderings: %d calls", n)
+	st.mu.Unlock()
+}
